@@ -114,14 +114,25 @@ static int g_distoracle;        /* apply dist_oracle to the next case (gen: case
 static char g_distpat[24];      /* effective drop pattern found by the oracle ("" = no opinion) */
 static unsigned long n_oracle, n_oracle_noopinion, n_probe;
 static struct buf valid_doc;      /* a known valid topology document (for the "fresh topology after failure" check) */
+static struct buf valid_side_doc; /* a known valid document WITH cpukinds (and whatever else that export carries): the reconfigured load must
+                                     also work when the failed load had already registered such structures (F82) */
+static int g_force_reconf;        /* late-failure prologue: always reconfigure the failed topology, with valid_side_doc */
+static unsigned long n_udcat, n_latefail;
 
 static void die(const char *fmt, ...) {
   va_list ap; va_start(ap, fmt); fprintf(stderr, "HARNESS-CHECK-FAILED: "); vfprintf(stderr, fmt, ap); va_end(ap); fputc('\n', stderr);
   fflush(NULL); _exit(97);
 }
 
+#ifdef VERIF_MSAN
+extern void __msan_check_mem_is_initialized(const volatile void *x, size_t size);
+#endif
 static void ud_import_cb(hwloc_topology_t t, hwloc_obj_t o, const char *name, const void *buffer, size_t length) {
   const unsigned char *p = buffer; unsigned long s = 0;
+#ifdef VERIF_MSAN   /* the bytes handed to the application must be initialised (a sum would not make MemorySanitizer speak) */
+  if (length) __msan_check_mem_is_initialized(buffer, length);
+  if (name) __msan_check_mem_is_initialized(name, strlen(name) + 1);
+#endif
   for (size_t i = 0; i < length; i++) s += p[i];
   if (name) s += strlen(name);
   if (o) s += o->type;
@@ -701,12 +712,14 @@ static int run_case(const char *caseid, const unsigned char *bytes, size_t len, 
       battery(t, caseid, xflags);
       dist_list_probe(t); n_probe++;      /* modifies the distances of t: last */
       ok = 1;
-    } else if (valid_doc.n && (n_reconf_try++ & 3) == 0) {
+    } else if (valid_doc.n && (g_force_reconf || (n_reconf_try++ & 3) == 0)) {
+      const struct buf *vd = (valid_side_doc.n && (g_force_reconf || (n_reconf_try & 4))) ? &valid_side_doc : &valid_doc;
       /* "On failure, the topology is reinitialized. It should be either destroyed or configured and loaded again" (hwloc.h): every
        * fourth failed set / load is followed by a valid document given to THE SAME topology, which must load (fix F81) */
-      if (hwloc_topology_set_xmlbuffer(t, (char *) valid_doc.p, (int) valid_doc.n + 1) < 0) die("case %s: set_xmlbuffer(valid doc) on the topology whose set/load just failed: refused", caseid);
+      if (hwloc_topology_set_xmlbuffer(t, (char *) vd->p, (int) vd->n + 1) < 0) die("case %s: set_xmlbuffer(valid doc) on the topology whose set/load just failed: refused", caseid);
       if (hwloc_topology_load(t) < 0) die("case %s: load(valid doc) on the topology whose set/load just failed: failed", caseid);
       if (hwloc_get_nbobjs_by_type(t, HWLOC_OBJ_PU) < 1) die("case %s: reloaded topology has no PU", caseid);
+      if (vd == &valid_side_doc && !(hwloc_topology_get_flags(t) & HWLOC_TOPOLOGY_FLAG_NO_CPUKINDS) && hwloc_cpukinds_get_nr(t, 0) < 1) die("case %s: reloaded topology lost its CPU kinds", caseid);
       n_reconf_ok++;
     }
     hwloc_topology_destroy(t);
@@ -743,6 +756,7 @@ static void add_exports(hwloc_topology_t t) {
     if (hwloc_topology_export_xmlbuffer(t, &xb, &xl, v ? HWLOC_TOPOLOGY_EXPORT_XML_FLAG_V2 : 0) == 0) {
       add_doc(xb, xl - 1, 0, 1);
       if (!v && !valid_doc.n && xl < 20000) b_set(&valid_doc, xb, xl - 1);
+      if (!v && !valid_side_doc.n && xl < 40000 && xmemmem((const unsigned char *) xb, (size_t) xl - 1, "<cpukind ")) b_set(&valid_side_doc, xb, xl - 1);
       hwloc_free_xmlbuffer(t, xb);
     }
   }
@@ -1248,6 +1262,80 @@ static void ma_prologue(FILE *fplan, const char *outdir) {
   free(m.p);
 }
 
+/* one prologue case: plan line, run, result */
+static int pro_exec(FILE *fplan, const char *outdir, const char *id, struct buf *m, char mode, unsigned long xflags, int u) {
+  char path[1200];
+  snprintf(path, sizeof path, "%s/%s.xml", outdir, id);
+  if (write_file(path, m->p, m->n) < 0) _exit(2);
+  fprintf(fplan, "%s %c %lu %d %zu %016llx ", id, mode, xflags, u, m->n, (unsigned long long) fnv(m->p, m->n)); fflush(fplan);
+  int res = run_case_lc(id, m->p, m->n, mode, xflags, u, path, 0, 0);
+  if (res == 1) fprintf(fplan, "loaded\n"); else if (res == 2) { fprintf(fplan, "failed\n"); remove(path); }
+  else { if (res == '7') fprintf(fplan, "skipped-F71\n"); else fprintf(fplan, "skipped-F05%c\n", res); remove(path); }
+  fflush(fplan);
+  return res;
+}
+/* userdata catalogue (C06-r7): a valid export whose objects carry plain and base64 userdata; for every <userdata> element the `length`
+ * attribute is nudged (the encoded length of base64 data is the same for 3 consecutive lengths, so a decoder that accepts a short
+ * decode hands uninitialised bytes to the application), the encoding attribute dropped / added, the content shortened; loaded with the
+ * import callback set.  Each document must load or fail cleanly; under MemorySanitizer the callback checks the bytes it is given. */
+static void ud_prologue(FILE *fplan, const char *outdir) {
+  static const int deltas[] = {1, 2, 3, -1, -2, 5, 16, -3};
+  struct buf base = {0}, m = {0}; unsigned idn = 0;
+  for (unsigned i = 0; i < ndocs && !base.n; i++)
+    if (docs[i].trusted && !docs[i].isdiff && xmemmem(docs[i].p, docs[i].n, "<userdata ") && xmemmem(docs[i].p, docs[i].n, "encoding=\"base64\"")) b_set(&base, docs[i].p, docs[i].n);
+  if (!base.n) die("userdata catalogue: no seed document with base64 userdata");
+  size_t pos = 0;
+  for (;;) {
+    const unsigned char *q = xmemmem(base.p + pos, base.n - pos, "<userdata ");
+    if (!q) break;
+    size_t es = (size_t) (q - base.p); pos = es + 10;
+    const unsigned char *ee = memchr(q, '>', base.n - es); if (!ee) break;
+    const unsigned char *la = xmemmem(q, (size_t) (ee - q), " length=\""); if (!la) continue;
+    size_t vs = (size_t) (la - base.p) + 9; size_t vl = 0; while (vs + vl < base.n && base.p[vs + vl] >= '0' && base.p[vs + vl] <= '9') vl++;
+    long len0 = strtol((const char *) base.p + vs, NULL, 10);
+    for (unsigned d = 0; d < sizeof deltas / sizeof *deltas + 2; d++) {
+      b_set(&m, base.p, base.n);
+      if (d < sizeof deltas / sizeof *deltas) {
+        long nl = len0 + deltas[d]; if (nl < 0) nl = 0;
+        char num[32]; int k = sprintf(num, "%ld", nl);
+        b_splice(&m, vs, vl, num, (size_t) k);
+      } else if (d == sizeof deltas / sizeof *deltas) {            /* encoding attribute dropped or added */
+        const unsigned char *en = xmemmem(m.p + es, (size_t) (ee - q), " encoding=\"base64\"");
+        if (en) b_splice(&m, (size_t) (en - m.p), 18, NULL, 0); else b_splice(&m, es + 9, 0, " encoding=\"base64\"", 18);
+      } else {                                                      /* one content character removed */
+        size_t cs = (size_t) (ee - base.p) + 1;
+        if (cs < m.n && m.p[cs] != '<') b_splice(&m, cs, 1, NULL, 0);
+      }
+      char id[32]; snprintf(id, sizeof id, "u%u", idn++);
+      pro_exec(fplan, outdir, id, &m, rng_chance(80) ? 'B' : 'F', gen_xflags(), 1);
+      n_udcat++;
+    }
+  }
+  free(base.p); free(m.p);
+}
+/* late failures (F82): a valid document with CPU kinds (+ distances / memattrs when the seed has them) made invalid only AFTER those
+ * elements were imported (a junk or incomplete element right before </topology>); the load must fail cleanly and THE SAME topology must
+ * then accept and load a valid document that registers CPU kinds again */
+static void latefail_prologue(FILE *fplan, const char *outdir) {
+  static const char *junk[] = {
+    "<distances2 type=\"PU\" nbobjs=\"2\" kind=\"5\" indexing=\"os\"></distances2>", "<cpukind/>", "<cpukind cpuset=\"\"/>", "<memattr/>",
+    "<memattr name=\"X\" flags=\"0\"/>", "<distances2/>", "<unknownelement/>", "<object type=\"PU\"/>", "<info/>", "<distances2hetero nbobjs=\"2\"/>",
+    "<support/>", "<cpukind cpuset=\"0xf...f\" forced_efficiency=\"x\"><info/></cpukind>", "<memattr name=\"Bandwidth\" flags=\"9\"><memattr_value/></memattr>" };
+  if (!valid_side_doc.n) return;
+  struct buf m = {0}; unsigned idn = 0;
+  g_force_reconf = 1;
+  for (unsigned k = 0; k < sizeof junk / sizeof *junk; k++) {
+    b_set(&m, valid_side_doc.p, valid_side_doc.n);
+    const unsigned char *q = xmemmem(m.p, m.n, "</topology>"); if (!q) break;
+    b_splice(&m, (size_t) (q - m.p), 0, junk[k], strlen(junk[k]));
+    char id[32]; snprintf(id, sizeof id, "l%u", idn++);
+    pro_exec(fplan, outdir, id, &m, rng_chance(80) ? 'B' : 'F', gen_xflags() & ~(unsigned long) (HWLOC_TOPOLOGY_FLAG_NO_CPUKINDS | HWLOC_TOPOLOGY_FLAG_NO_DISTANCES | HWLOC_TOPOLOGY_FLAG_NO_MEMATTRS), 0);
+    n_latefail++;
+  }
+  g_force_reconf = 0;
+  free(m.p);
+}
+
 /* degenerate documents through every entry point (buffer, file, diff): zero-length, one byte, a lone NUL, only white space, only the
  * XML declaration: each must be refused (or loaded) in bounded time */
 static void edge_prologue(FILE *fplan, const char *outdir) {
@@ -1314,6 +1402,8 @@ int main(int argc, char **argv) {
   if (!env_on("VERIF_NO_DISTDROP")) dd_prologue(fplan, outdir);
   if (!env_on("VERIF_NO_MACAT")) ma_prologue(fplan, outdir);
   edge_prologue(fplan, outdir);
+  ud_prologue(fplan, outdir);
+  latefail_prologue(fplan, outdir);
   struct buf m = {0};
   for (unsigned long i = 0; i < n; i++) {
     char id[32]; snprintf(id, sizeof id, "c%lu", i);
@@ -1384,11 +1474,13 @@ int main(int argc, char **argv) {
   fprintf(fplan, "# memcache-leaf-skipped %lu\n", n_mcleaf);
   fprintf(fplan, "# hugegp-skipped %lu\n", n_hugegp);
   fprintf(fplan, "# memattr-catalogue %lu\n", n_macat);
+  fprintf(fplan, "# userdata-catalogue %lu\n", n_udcat);
+  fprintf(fplan, "# late-failures %lu\n", n_latefail);
   fprintf(fplan, "# reconfigured-after-failure %lu\n", n_reconf_ok);
   fprintf(fplan, "# distoracle applied %lu noopinion %lu probes %lu\n", n_oracle, n_oracle_noopinion, n_probe);
   fprintf(fplan, "# done\n");
   fclose(fplan); fclose(fdump);
   for (unsigned i = 0; i < ndocs; i++) free(docs[i].p);
-  free(docs); free(m.p); free(valid_doc.p); free(distdocs);
+  free(docs); free(m.p); free(valid_doc.p); free(valid_side_doc.p); free(distdocs);
   return 0;
 }
